@@ -120,6 +120,9 @@ Definition spec_op (e : env) (o : term) : env * option str :=
     | None => (e, None)
     end
   else if is_op o "drop" then (e_drop e a1, Some [])
+  else if is_op o "mklist" then
+    (* a list value: its string is the list of its elements, whatever is asked of it later *)
+    let s := list_to_string (term_strs (term_nth o 2)) in (e_set e a1 s, Some [48])
   else if (is_op o "remove" || is_op o "copy") && negb (e_has e (term_str (term_nth o 2))) then (e, None)
   else if (is_op o "get" || is_op o "exists" || is_op o "keys" || is_op o "values" || is_op o "size")
           && negb (e_has e a1) then (e, None)
